@@ -33,7 +33,7 @@ pub static DEF: PropDef = PropDef {
 	real: LIB_REAL,
 	stub: LIB_STUB,
 	assumptions: &["the `verif` hook returns detect_format's own answer and exposes input::Handle without adding logic", "error texts ARE compared between the detected run and the explicit run of the detected format (the statement requires identical outcome)"],
-	expected_probes: &["kind.program", "kind.lib", "program.eintr.fired", "program.flipped_to_slice", "program.reborrow_after_partial_read", "program.into_cow", "program.into_input.reader", "program.into_input.slice", "lib.detected.json", "lib.detected.msgpack", "lib.detected.yaml", "lib.detected.toml", "lib.undetected", "lib.agreement_checked", "lib.fault.fired", "lib.msgpack_marker_first", "lib.u0700_first", "lib.truncated"],
+	expected_probes: &["kind.program", "kind.lib", "program.eintr.fired", "program.flipped_to_slice", "program.reborrow_after_partial_read", "program.into_cow", "program.into_input.reader", "program.into_input.slice", "lib.detected.json", "lib.detected.msgpack", "lib.detected.yaml", "lib.detected.toml", "lib.undetected", "lib.agreement_checked", "lib.fault.fired", "lib.msgpack_marker_first", "lib.u0700_first", "lib.truncated", "lib.near_2mib_toml"],
 	needs_bins: false,
 	watchdog_s: 30,
 };
@@ -151,7 +151,20 @@ fn gen(seed: u64, idx: u64, t: Tier) -> J {
 	let mut r = Rng::derive(seed, "C09", idx);
 	let fam = r.below(100);
 	let mut family = "valid";
-	let bytes: Vec<u8> = if fam < 25 {
+	let bytes: Vec<u8> = if idx % 997 == 5 {
+		// Just under the 2 MiB cut-off above which TOML detection from a reader is switched off.
+		family = "near_2mib";
+		let total = 2 * 1024 * 1024 - r.range(1, 3);
+		let head = "a = \"";
+		let tail = "\"\nb = 1\n";
+		let mut s = String::with_capacity(total);
+		s.push_str(head);
+		while s.len() + tail.len() < total {
+			s.push('x');
+		}
+		s.push_str(tail);
+		s.into_bytes()
+	} else if fam < 25 {
 		corpus_stream(&mut r, 4).1.bytes
 	} else if fam < 45 {
 		family = "truncated";
@@ -201,6 +214,7 @@ fn gen(seed: u64, idx: u64, t: Tier) -> J {
 	};
 	let reader = r.chance(2, 3);
 	let sched = if reader { gen::gen_sched(&mut r, bytes.len()) } else { Sched::whole() };
+	let sched = if bytes.len() > 100_000 && sched.cycle && sched.list.iter().all(|n| *n < 1024) { Sched::bytes(r.range(4096, 70_000) as u32) } else { sched };
 	let mut c = Call::reader(bytes, None, sched);
 	c.reader = reader;
 	if reader && r.chance(1, 6) {
@@ -249,6 +263,7 @@ fn eval_lib(case: &J) -> Eval {
 		"msgpack_marker_first" => ev.count("lib.msgpack_marker_first", 1),
 		"u0700_first" => ev.count("lib.u0700_first", 1),
 		"truncated" => ev.count("lib.truncated", 1),
+		"near_2mib" => ev.count("lib.near_2mib_toml", 1),
 		_ => {}
 	}
 	if let Some(f) = &c0.rfault {
@@ -328,7 +343,8 @@ fn eval_lib(case: &J) -> Eval {
 		ev.count("lib.agreement_checked", 1);
 		let (ds, _, _) = detect_with(&c0.bytes, false, &Sched::whole(), None);
 		let mut answers = vec![("slice".to_owned(), ds)];
-		for (name, s) in [("reader(drawn)", c0.sched.clone()), ("reader(1-byte)", Sched::bytes(1)), ("reader(whole)", Sched::whole())] {
+		let small = if c0.bytes.len() > 100_000 { Sched::bytes(65_536) } else { Sched::bytes(1) };
+		for (name, s) in [("reader(drawn)", c0.sched.clone()), ("reader(1-byte)", small), ("reader(whole)", Sched::whole())] {
 			let (d, _, _) = detect_with(&c0.bytes, true, &s, None);
 			answers.push((name.to_owned(), d));
 		}
